@@ -140,8 +140,14 @@ impl Prop for C03P {
                 let p = gen_program(&mut r, Mode::Explicit);
                 let Some((m, kind)) = perturb(&p.h, &mut r) else { return };
                 let src = print(&m, &Style::varied(&mut r), idx).text;
-                let verdict = judge_source(&m);
+                // gram first: what it turns away before type checking (scoping, definition order -
+                // a perturbation can make a definition refer to itself) needs no reference verdict,
+                // and R-core may not terminate on it
                 let obs = check_text(ctx, &src, false, "perturbed");
+                if !matches!(obs.front, Front::Accepted | Front::TypeErr(_)) {
+                    return;
+                }
+                let verdict = judge_source(&m);
                 match (&verdict, &obs.front) {
                     (SourceVerdict::IllTyped(why), Front::Accepted) => {
                         viol(ctx, &format!("accepts-ill-typed:{kind}"), &format!("the reference checker rejects this explicit program ({why}) but gram accepts it"), &src, &obs);
